@@ -44,6 +44,12 @@ def _mk_arg(kind, xs):
         return OrderedSet(xs)
     if kind == "tuple":
         return tuple(xs)
+    if kind == "iter":
+        return iter(list(xs))  # a one-shot iterator is an Iterable too
+    if kind == "gen":
+        return (x for x in list(xs))
+    if kind == "dictkeys":
+        return dict.fromkeys(xs).keys()
     return list(xs)
 
 
@@ -244,8 +250,9 @@ def check_helpers(case) -> "Failure | None":
     }
     fns = {"ordered_union": ordered_union, "ordered_intersect": ordered_intersect, "ordered_diff": ordered_diff}
     for k, fn in fns.items():
-        for wrap in ("list", "oset", "tuple"):
-            aa, bb = _mk_arg(wrap, case["a"]), _mk_arg(wrap, case["b"])
+        for wrap in ("list", "oset", "tuple", "iter", "gen", "dictkeys", ("list", "iter"), ("gen", "oset"), ("oset", "gen")):
+            wa, wb = (wrap, wrap) if isinstance(wrap, str) else wrap
+            aa, bb = _mk_arg(wa, case["a"]), _mk_arg(wb, case["b"])
             r = fn(aa, bb)
             if not isinstance(r, OrderedSet):
                 return Failure(f"{k} returned {type(r)}", {"kind": "helper", "fn": k})
@@ -253,7 +260,7 @@ def check_helpers(case) -> "Failure | None":
                 return Failure(
                     f"{k}({a!r}, {b!r}) = {list(r)!r}, expected {exp[k]!r}", {"kind": "helper", "fn": k}
                 )
-            if wrap == "oset" and (list(aa) != da or list(bb) != db):
+            if (wa == "oset" and list(aa) != da) or (wb == "oset" and list(bb) != db):
                 return Failure(f"{k} modified its arguments", {"kind": "helper", "fn": k})
     return None
 
